@@ -102,7 +102,14 @@ pub fn file_mutation(text: &str, rng: &mut Rng) -> Vec<u8> {
             break;
         }
         let i = rng.below(lines.len());
-        match rng.below(7) {
+        match rng.below(9) {
+            7 => {
+                // an empty line: the lines after it keep their numbers in the input
+                lines.insert(i, Vec::new());
+            }
+            8 => {
+                lines.insert(i, b"   ".to_vec());
+            }
             0 => {
                 lines.remove(i);
             }
